@@ -40,6 +40,22 @@ def check(run):
                                  S.status_info({0x27: 0, 0x04: amount, 0x0B: trace, 0x0C: time, 0x0D: date, 0x29: tid}), S.completion()])
                     sc.exp_results.append("Ok:tid=%d,amount=%d,trace=%d,date=%04d,time=%06d" % (tid, amount, trace, date, time))
                     scs.append(sc)
+    # long reference tokens: the TLV objects around the token (1F63 in E9 in the 06 container) pass the 127/128 and 255/256
+    # length-form switches (round-3 seeded change C08-tlv-128-short-form)
+    for L in list(range(108, 136)) + [200, 243, 244, 245, 246, 247, 248, 249, 250, 255, 256, 300] + ([rng.randrange(17, 400) for _ in range(40)] if th else []):
+        tok = "".join(rng.choice("ABCDEFGHJKLMNPQRSTUVWXYZ0123456789") for _ in range(L))
+        pre, final, cur, receipt = 2500, rng.choice([0, 1, 2499, 2500, 2501]), 978, rng.randrange(1, 10000)
+        sc = cc.Scenario(S, {"amount": pre, "cur": cur, "max": 2}).start()
+        sc.ops.append("begin:" + tok.encode().hex())
+        sc.exchange(S.reservation(cur, pre, tok), [S.status_info({0x27: 0, 0x87: receipt}), S.completion()])
+        sc.exp_results.append("Ok")
+        sc.ops.append("begin:" + "other".encode().hex())
+        sc.exchange(S.reservation(cur, pre, "other"), [S.status_info({0x27: 0, 0x87: 77}), S.completion()])
+        sc.exp_results.append("Ok")
+        sc.ops.append("commit:%s:%d" % (tok.encode().hex(), final))
+        sc.exchange(S.partial_reversal(receipt, cur, pre - min(pre, final), tok), [S.status_info({0x27: 0, 0x04: 7, 0x0B: 8, 0x0C: 9, 0x0D: 10, 0x29: 11}), S.completion()])
+        sc.exp_results.append("Ok:tid=11,amount=7,trace=8,date=0010,time=000009")
+        scs.append(sc)
     cases, mo, io = run_scenarios(run, scs, "c08")
     diffs = judge(run, scs, cases, mo, io,
                   "commit asks to release exactly pre - min(pre, final) in the configured currency against the token's receipt number and reference (BMP60 'AC' + token); "
